@@ -33,6 +33,8 @@ def run(ctx):
   rule_cf(ctx)
   rule_bias(ctx)
   rule_pure(ctx)
+  rule_pseudoavg(ctx)
+  ctx.expect("R-C19-PSEUDOAVG", 1, "PseudoAverage")
   ctx.expect("R-C19-PURE", 40, "every function of the helper modules")
   ctx.expect("R-C19-BIAS", 2, "statistic + summand count")
   ctx.expect("R-C19-HENSEL", 8, "two loops x (base, identity, exponent, reduction)")
@@ -550,3 +552,97 @@ def rule_pure(ctx):
       probs += ["decorator %s may keep state between calls" % d for d in effects.impure_decorators(fn.node)]
       ctx.record(R, fn.where, "no state outlives the call", not probs, "; ".join(probs) if probs else
                  "no global declaration, no write to a module-level container or attribute, no mutable default argument written" + (" (%d sound memo store(s))" % memo if memo else ""))
+
+
+# ------------------------------------------------------------------ PSEUDOAVG: exhaustive prefix-shift variance minimisation
+def rule_pseudoavg(ctx):
+  R = "R-C19-PSEUDOAVG"
+  repo = ctx.repo
+  f, w = walk(repo, "randomness_tests.lattice_suite", "PseudoAverage")
+  a, n = [P("param", x) for x in f.params()[:2]]
+  srt = sym.mk("sorted", a)
+  m = sym.mk("len", srt)
+  loops = [i for i in w.loop_info.values() if i["visits"]]
+  if len(loops) != 1:
+    raise Incomplete("PseudoAverage: expected one scan over the prefixes", f.where)
+  info = loops[0]
+  vis = info["visits"][0]
+  probs = []
+  it = as_poly(vis["iter"]).as_atom() if not isinstance(vis["iter"], Seq) and vis["iter"] is not None else None
+  if not (it is not None and it.kind == "range" and len(it.args) == 1 and ratfun_eq(as_poly(it.args[0]), m)):
+    probs.append("the scan does not run over all len(a) prefixes")
+  k = as_poly(vis["k"])
+  j = k + 1
+  head, pre = vis["head"].env, vis["pre_env"]
+  S = sym.mk("sum", srt)
+  # roles: the prefix sum grows by sorted(a)[i]; the best pair starts at (0, 0)
+  sxv = None
+  paths = [bp for bp in info["body_paths"] if bp[4] is vis]
+  for nm in info["modified"]:
+    hv = head.get(nm)
+    if hv is None or isinstance(hv, (Seq, Const, tuple)):
+      continue
+    ds = [as_poly(bp[2].env[nm]) - as_poly(hv) for bp in paths if bp[2].env.get(nm) is not None and not isinstance(bp[2].env[nm], (Seq, Const, tuple))]
+    if ds and all(d == sym.mk("idx", srt, k) for d in ds) and isinstance(pre.get(nm), (Const, Poly)) and as_poly(pre[nm]).is_zero():
+      sxv = nm
+  if sxv is None:
+    probs.append("no prefix sum of the sorted residues is maintained")
+  for kind, val, s_, since, v2 in paths:
+    if kind != "fall":
+      probs.append("the scan is left by `%s` before every prefix has been tried: the variance change is not unimodal in j, a later prefix can be better" % kind)
+  if sxv is not None and not probs:
+    SX = as_poly(head[sxv]) + sym.mk("idx", srt, k)       # prefix sum including element i
+    # variance change of shifting the first j elements by n, times m / n:  m(2n sx + j n^2) - 2 S j n - j^2 n^2  =  n * diff
+    want_n = m * (n * 2 * SX + j * n * n) - S * 2 * j * n - j * j * n * n
+    cmpv = None
+    bestd = bestj = None
+    for kind, val, s_, since, v2 in paths:
+      newf = s_.facts[len(vis["head"].facts):]
+      for fc in newf:
+        if fc[0] == "cmp" and fc[1] in ("Lt", "GtE") and not isinstance(fc[2], Seq) and not isinstance(fc[3], Seq):
+          d, b_ = as_poly(fc[2]), as_poly(fc[3])
+          if (d * n - want_n).is_zero():
+            cmpv = d
+            for nm in info["modified"]:
+              if head.get(nm) is not None and not isinstance(head[nm], (Seq, Const, tuple)) and as_poly(head[nm]) == b_:
+                bestd = nm
+    if cmpv is None or bestd is None:
+      probs.append("the quantity compared against the running best is not the variance change 2*sx*m + j*(n*m - 2*sum - j*n)")
+    else:
+      for kind, val, s_, since, v2 in paths:
+        newf = s_.facts[len(vis["head"].facts):]
+        better = any(fc[0] == "cmp" and fc[1] == "Lt" and as_poly(fc[2]) == cmpv for fc in newf if not isinstance(fc[2], Seq))
+        nd = as_poly(s_.env[bestd])
+        if better and nd != cmpv:
+          probs.append("a better prefix does not replace the running best")
+        if not better and nd != as_poly(head[bestd]):
+          probs.append("the running best changes without an improvement")
+      # the tracked prefix length: equals j after an improving pass and is unchanged otherwise
+      for nm in info["modified"]:
+        if nm in (bestd, sxv) or head.get(nm) is None or isinstance(head[nm], (Seq, Const, tuple)):
+          continue
+        good = True
+        for kind, val, s_, since, v2 in paths:
+          newf = s_.facts[len(vis["head"].facts):]
+          better = any(fc[0] == "cmp" and fc[1] == "Lt" and not isinstance(fc[2], Seq) and as_poly(fc[2]) == cmpv for fc in newf)
+          cur = s_.env.get(nm)
+          if cur is None or isinstance(cur, (Seq, Const, tuple)) or as_poly(cur) != (j if better else as_poly(head[nm])):
+            good = False
+        if good:
+          bestj = nm
+      if not (isinstance(pre.get(bestd), (Const, Poly)) and as_poly(pre[bestd]).is_zero()):
+        probs.append("the running best does not start at 0 (no shift)")
+      if bestj is None or not (isinstance(pre.get(bestj), (Const, Poly)) and as_poly(pre[bestj]).is_zero()):
+        probs.append("the best prefix length is not tracked from 0")
+      else:
+        rets = [t for t in w.terminals if t[0] == "return" and not isinstance(t[1], (Seq, Const, tuple))]
+        J = as_poly(vis["after_env"][bestj])
+        want = sym.mk("mod", sym.mk("fdiv", S + n * J + sym.mk("fdiv", m, Poly.const(2)), m), n)
+        if not rets or as_poly(rets[0][1]) != want:
+          probs.append("the result is not round((sum + n * best_j) / len) mod n")
+  ctx.record(R, f.where, "argmin over all prefix shifts of the variance, result = rounded mean of the shifted list mod n", not probs, "; ".join(sorted(set(probs))) or
+             "sorted residues; every prefix j = 1..len tried; n * diff = m(2n sx + j n^2) - 2 S j n - (j n)^2 (polynomial identity); strict improvement from (0, 0); mean rounded")
+
+
+def ratfun_eq(x, y):
+  return (x - y).is_zero()
